@@ -21,14 +21,48 @@ ASSUMPTIONS = [
 ]
 
 
+def on_worker_thread(fn):
+    """fn() on a thread other than the one that imported the library (sessions are often driven from worker threads); returns its result or
+    re-raises what it raised"""
+    import threading
+
+    box = {}
+
+    def run():
+        try:
+            box["r"] = fn()
+        except BaseException as e:  # noqa: BLE001
+            box["e"] = e
+
+    t_ = threading.Thread(target=run)
+    t_.start()
+    t_.join(60)
+    if t_.is_alive():
+        raise guard.Hang()
+    if "e" in box:
+        raise box["e"]
+    return box.get("r")
+
+
+_N_CALLS = [0]
+
+
 def fail_closed(prep, chunks):
-    """the property statement on one input; returns (violations, outcome class, notifications to verify)"""
+    """the property statement on one input; returns (violations, outcome class, notifications to verify).  Every fifth input is delivered from a
+    worker thread (no CPU guard there: signals are delivered to the main thread)"""
+    _N_CALLS[0] += 1
+    if _N_CALLS[0] % 5 == 0 and len(chunks) <= 8:
+        return on_worker_thread(lambda: _fail_closed(prep, chunks, threaded=True))
+    return _fail_closed(prep, chunks)
+
+
+def _fail_closed(prep, chunks, threaded=False):
     im, s = PR.fresh(prep)
     role = "client" if prep.startswith("client") else "server"
     notif = []
     for idx, ch in enumerate(chunks):
         try:
-            guard.guarded(lambda: s.receive(bytes(ch)), 5.0)
+            (s.receive(bytes(ch)) if threaded else guard.guarded(lambda: s.receive(bytes(ch)), 5.0))
         except sansldap.ProtocolError as e:
             out = []
             if s.state.name != "CLOSED":
@@ -44,7 +78,8 @@ def fail_closed(prep, chunks):
                 notif.append((role, bytes(e.response)))
             return out, "ProtocolError", notif
         except BaseException as e:  # noqa: BLE001
-            return [{"key": None, "what": f"receive raised {type(e).__name__} instead of ProtocolError (state {s.state.name})", "call": idx}], "other", notif
+            return [{"key": None, "what": f"receive raised {type(e).__name__} instead of ProtocolError (state {s.state.name})" + (" on a worker thread" if threaded else ""),
+                     "call": idx}], "other", notif
     return [], "msgs", notif
 
 
